@@ -304,3 +304,34 @@ def resolve_item(value, next_result, shape, prefix=('Some', '0')):
         cur = cur[1 + int(p[0])]
         p = p[1:]
     return cur, p
+
+
+# --- private layout of VoronoiFace, discovered through its public accessors ------------------------------------
+_face_paths = {}
+
+
+def face_paths(F):
+    """Field path (list of names below a VoronoiFace value) read by each public accessor, obtained by abstractly
+    evaluating the accessor on a symbolic face — so that rules do not depend on the names of private fields."""
+    k = id(F)
+    if k in _face_paths:
+        return _face_paths[k]
+    out = {}
+    for nm in ('left', 'right', 'shift', 'normal', 'area', 'centroid'):
+        b = F.body_by_suffix('VoronoiFace::' + nm)
+        ip = I.Interp(F)
+        face = I.Sym(nf.sym_atom('FACE'), 'voronoi::voronoi_face::VoronoiFace')
+        v, _ = ip.call_body(b, [ip.ref_to(face)])
+        t = repr(I.frozen(v)).replace(' ', '')
+        if t.startswith('DVec3{x:FACE.') and t.endswith('.z}'):
+            t = t[len('DVec3{x:'):].split(',y:')[0]
+            t = t[:-2] if t.endswith('.x') else t
+        if not t.startswith('FACE.'):
+            raise AnalysisIncomplete('accessor VoronoiFace::%s does not read a field path: %s' % (nm, t[:80]), nm)
+        out[nm] = t[len('FACE.'):].split('.')
+    _face_paths[k] = out
+    return out
+
+
+def face_path_str(F, nm):
+    return '.'.join(face_paths(F)[nm])
